@@ -136,3 +136,261 @@ From BB Require Gen.Effects Proofs.Effects Proofs.EffectsOk.
 Theorem C20_assemble_is_a_function_of_its_inputs : Proofs.Effects.summary_ok Gen.Effects.summary = true.
 Proof. exact Proofs.EffectsOk.summary_ok_holds. Qed.
 Print Assumptions C20_assemble_is_a_function_of_its_inputs.
+
+(* ==== THE FIRST HALF, WHOLE PROGRAM: every eligible instruction is emitted in 16 bits ================================================
+   (Proofs/EligibleSweep.v, Proofs/EligibleItem.v, Proofs/EligibleProgram.v)
+
+   Vocabulary (all defined in the three files, all computable or first-order over the program):
+   * std_fields cls fs        the field list has the shape the parser (Model/Parser.v parse_item) and the pseudo expansion build for
+                              the class: R [rd rs1 rs2 (+ ghost #rs2)], I [rd rs1 imm is_auipc_jump], IE [], S / B [rs1 rs2 imm], U / J [rd imm];
+   * class_of_name name       the class the parser gives the 18 mnemonics that have compression rules (addi andi lw jalr / sw / beq bne /
+                              lui / jal / add sub xor or and slli srli srai / ebreak);
+   * resolved_fields consts fs   the fields after resolve_register_aliases (a constant used as a register name is replaced by its value);
+   * settled_operands consts l fs   the immediate, if there is one, is not position relative and evaluates against the CONSTANTS alone
+                              (is_settled of asm.py / Model/Passes.v) -- "literal, not label-dependent";
+   * item_view consts l name fs    the numeric view: mnemonic, register NUMBERS (any spelling: x8, s0, 8, an alias), immediate VALUE;
+   * expansion_view c v       v is the view of expand_c c written with canonical operands (the predicate of C20_complete), or -- lui -- the
+                              documented second spelling 0x80000..0xfffff of a negative immediate, or -- c.mv -- `addi rd, rs, 0`, the
+                              rendering of the pseudo-instruction `mv rd, rs`;
+   * eligible_as consts l name fs c   there is a LEGAL NON-HINT RV32C halfword h (decode16 h = Some c) with expansion_view c (item_view ...);
+   * chunks_of_line l chunks  the output chunks that carry source line l; line_once l its: exactly one item of the program has line l
+                              (what the reader produces: one item per source line). *)
+From BB Require Import Model.Parser Proofs.RuleStep Proofs.EligibleSweep Proofs.EligibleItem Proofs.EligibleProgram.
+
+(* rule level, in the form the program theorems use: for EVERY legal non-hint halfword and every view of its expansion, the selected
+   rule, fed with the operands the generated construction row hands to the compressed encoder, names a compressed instruction
+   with the IDENTICAL expansion (in-kernel sweep of all 65 536 halfwords) *)
+Theorem C20_selected_rule_rebuilds_the_expansion :
+  forall h c v, 0 <= h < 65536 -> decode16 h = Some c -> expansion_view c v ->
+  exists cls32 r final cls cfs o16 c',
+    class_of_name (nv_name v) = Some cls32 /\
+    select_num criteria v = Some r /\ assoc_str r construction = Some (final, cls, cfs) /\
+    operands16 final (pos16n v cfs) = Some o16 /\ denote16 final o16 = Some c' /\ expand_c c' = expand_c c.
+Proof. exact eligible_selected. Qed.
+Print Assumptions C20_selected_rule_rebuilds_the_expansion.
+
+(* item level: at WHATEVER position and under WHATEVER label table the compression pass meets an eligible instruction with settled
+   operands, it replaces it by one compressed item; no rule is named after that item's mnemonic (the second compression pass leaves
+   it alone), alias resolution leaves it alone, and at whatever final position / label table its immediate is resolved the generated
+   c.* encoder returns a halfword h' with decode16 h' = Some c' and expand_c c' = expand_c c *)
+Theorem C20_item_eligible_is_compressed :
+  forall consts l cls name fs c pos labels rs,
+  class_of_name name = Some cls -> std_fields cls fs -> regs_resolved consts fs -> settled_operands consts l fs ->
+  eligible_as consts l name fs c ->
+  compress_rule consts l (IInstr cls name fs false) pos labels = Done rs ->
+  exists cls' final nfs, rs = [IInstr cls' final nfs true] /\
+    rules_named final = [] /\ map (alias_field consts) nfs = nfs /\
+    forall p labels' fs' bs,
+      match field_get "imm" nfs with
+      | Some val => exists z, imm_of l p consts labels' val = Done z /\ fs' = field_set "imm" (FInt z) nfs
+      | None => fs' = nfs
+      end ->
+      encode_item l cls' final fs' true = Done bs ->
+      exists h' c', bs = le_bytes 2 h' /\ 0 <= h' < 65536 /\ decode16 h' = Some c' /\ expand_c c' = expand_c c.
+Proof. exact eligible_item. Qed.
+Print Assumptions C20_item_eligible_is_compressed.
+
+(* THE WHOLE-PROGRAM THEOREM.  For EVERY program, any initial constants and labels: if the program assembles with compression on, then
+   every 32-bit instruction item of the program that stands on a line of its own, is written with the parser's field shape, has settled
+   operands and is (after alias resolution) the expansion of a legal non-hint RV32C instruction c, is emitted as exactly ONE chunk of
+   exactly two bytes: the little-endian halfword h' of a legal non-hint RV32C instruction c' with the same expansion as c.
+   (The item is followed through all sixteen passes: first compression pass -> compressed item (rule completeness + the guard
+   imm_unstable is false on a settled immediate + the selection sees the final operand values); pseudo pass, alias resolution,
+   second compression pass (no rule is named after a c.* mnemonic), alignment: kept as it is; immediates: the settled value; encoder:
+   C02 (the halfword decodes to the instruction the operands name).) *)
+Theorem C20_program_eligible_is_compressed :
+  forall its consts0 labels0 r l cls name fs c,
+  assemble_items its consts0 labels0 true = Done r ->
+  In (l, IInstr cls name fs false) its -> line_once l its ->
+  class_of_name name = Some cls -> std_fields cls fs ->
+  settled_operands (r_consts r) l (resolved_fields (r_consts r) fs) ->
+  eligible_as (r_consts r) l name (resolved_fields (r_consts r) fs) c ->
+  exists h' c',
+    chunks_of_line l (r_chunks r) = [(l, CBytes (le_bytes 2 h'))] /\
+    0 <= h' < 65536 /\ decode16 h' = Some c' /\ expand_c c' = expand_c c.
+Proof. exact eligible_is_compressed. Qed.
+Print Assumptions C20_program_eligible_is_compressed.
+
+(* the same without any assumption on the lines: by POSITION in the item list.  The chunk of the item sits between the chunks that
+   come from the items in front of it and the chunks that come from the items behind it. *)
+Theorem C20_program_eligible_is_compressed_at :
+  forall its consts0 labels0 r pre post l cls name fs c,
+  assemble_items its consts0 labels0 true = Done r ->
+  its = pre ++ (l, IInstr cls name fs false) :: post ->
+  class_of_name name = Some cls -> std_fields cls fs ->
+  settled_operands (r_consts r) l (resolved_fields (r_consts r) fs) ->
+  eligible_as (r_consts r) l name (resolved_fields (r_consts r) fs) c ->
+  exists cs1 cs3 h' c',
+    r_chunks r = cs1 ++ (l, CBytes (le_bytes 2 h')) :: cs3 /\
+    incl (map fst cs1) (map fst pre) /\ incl (map fst cs3) (map fst post) /\
+    0 <= h' < 65536 /\ decode16 h' = Some c' /\ expand_c c' = expand_c c.
+Proof. exact eligible_is_compressed_at. Qed.
+Print Assumptions C20_program_eligible_is_compressed_at.
+
+(* programs that use no constant as a register name (regs_resolved: every register operand is a number or a name that is not a
+   constant): the hypotheses speak about the fields as written *)
+Theorem C20_program_eligible_is_compressed_no_aliases :
+  forall its consts0 labels0 r l cls name fs c,
+  assemble_items its consts0 labels0 true = Done r ->
+  In (l, IInstr cls name fs false) its -> line_once l its ->
+  class_of_name name = Some cls -> std_fields cls fs -> regs_resolved (r_consts r) fs ->
+  settled_operands (r_consts r) l fs -> eligible_as (r_consts r) l name fs c ->
+  exists h' c',
+    chunks_of_line l (r_chunks r) = [(l, CBytes (le_bytes 2 h'))] /\
+    0 <= h' < 65536 /\ decode16 h' = Some c' /\ expand_c c' = expand_c c.
+Proof. exact eligible_is_compressed_plain. Qed.
+Print Assumptions C20_program_eligible_is_compressed_no_aliases.
+
+(* instructions that come out of PSEUDO-INSTRUCTION expansion are compressed by the SECOND compression pass: a pseudo-instruction
+   that is rendered as ONE 32-bit instruction decided on the constants alone (pseudo_one: the one-instruction pseudo-instructions --
+   nop mv jr jalr ret ... -- and li with a settled value in the range of addi) whose instruction is eligible comes out as one chunk of
+   two bytes (li a0, 5 -> addi a0, x0, 5 -> c.li; mv -> c.mv; nop -> c.nop; ret / jr -> c.jr; jalr rs -> c.jalr) *)
+Theorem C20_program_eligible_expansion_is_compressed :
+  forall its consts0 labels0 r l pname args pimm cls name fs c,
+  assemble_items its consts0 labels0 true = Done r ->
+  In (l, IPseudo pname args pimm) its -> line_once l its ->
+  pseudo_one (r_consts r) l pname args pimm = Some (IInstr cls name fs false) ->
+  class_of_name name = Some cls -> std_fields cls fs ->
+  settled_operands (r_consts r) l (resolved_fields (r_consts r) fs) ->
+  eligible_as (r_consts r) l name (resolved_fields (r_consts r) fs) c ->
+  exists h' c',
+    chunks_of_line l (r_chunks r) = [(l, CBytes (le_bytes 2 h'))] /\
+    0 <= h' < 65536 /\ decode16 h' = Some c' /\ expand_c c' = expand_c c.
+Proof. exact eligible_expansion_is_compressed. Qed.
+Print Assumptions C20_program_eligible_expansion_is_compressed.
+Theorem C20_program_eligible_expansion_is_compressed_at :
+  forall its consts0 labels0 r pre post l pname args pimm cls name fs c,
+  assemble_items its consts0 labels0 true = Done r ->
+  its = pre ++ (l, IPseudo pname args pimm) :: post ->
+  pseudo_one (r_consts r) l pname args pimm = Some (IInstr cls name fs false) ->
+  class_of_name name = Some cls -> std_fields cls fs ->
+  settled_operands (r_consts r) l (resolved_fields (r_consts r) fs) ->
+  eligible_as (r_consts r) l name (resolved_fields (r_consts r) fs) c ->
+  exists cs1 cs3 h' c',
+    r_chunks r = cs1 ++ (l, CBytes (le_bytes 2 h')) :: cs3 /\
+    incl (map fst cs1) (map fst pre) /\ incl (map fst cs3) (map fst post) /\
+    0 <= h' < 65536 /\ decode16 h' = Some c' /\ expand_c c' = expand_c c.
+Proof. exact eligible_expansion_is_compressed_at. Qed.
+Print Assumptions C20_program_eligible_expansion_is_compressed_at.
+
+(* THE SAME WITH THE PARSER IN FRONT: the class and the field shape need not be assumed for an item the parser model
+   (Model/Parser.v parse_item; tied to asm.parse_item by the front-end correspondence) made out of a source line -- the hypotheses are:
+   the program assembles, the item is the parse of some token list, its operands are settled, it is eligible.
+   (parsed_item_std: whatever parse_item returns as a 32-bit instruction named by one of the 18 mnemonics has the class
+   class_of_name gives and the shape std_fields; pseudo_one_std: the same for the instruction a pseudo-instruction is rendered as.) *)
+From BB Require Import Proofs.EligibleParse.
+Theorem C20_parsed_instruction_has_the_shape :
+  forall l tokens cls name fs cls',
+  parse_item l tokens = FOk (IInstr cls name fs false) -> class_of_name name = Some cls' -> cls = cls' /\ std_fields cls fs.
+Proof. exact parsed_item_std. Qed.
+Print Assumptions C20_parsed_instruction_has_the_shape.
+Theorem C20_program_parsed_eligible_is_compressed :
+  forall its consts0 labels0 r l tokens cls name fs c,
+  assemble_items its consts0 labels0 true = Done r ->
+  parse_item l tokens = FOk (IInstr cls name fs false) ->
+  In (l, IInstr cls name fs false) its -> line_once l its ->
+  settled_operands (r_consts r) l (resolved_fields (r_consts r) fs) ->
+  eligible_as (r_consts r) l name (resolved_fields (r_consts r) fs) c ->
+  exists h' c',
+    chunks_of_line l (r_chunks r) = [(l, CBytes (le_bytes 2 h'))] /\
+    0 <= h' < 65536 /\ decode16 h' = Some c' /\ expand_c c' = expand_c c.
+Proof. exact eligible_is_compressed_parsed. Qed.
+Print Assumptions C20_program_parsed_eligible_is_compressed.
+Theorem C20_program_parsed_eligible_is_compressed_at :
+  forall its consts0 labels0 r pre post l tokens cls name fs c,
+  assemble_items its consts0 labels0 true = Done r ->
+  parse_item l tokens = FOk (IInstr cls name fs false) ->
+  its = pre ++ (l, IInstr cls name fs false) :: post ->
+  settled_operands (r_consts r) l (resolved_fields (r_consts r) fs) ->
+  eligible_as (r_consts r) l name (resolved_fields (r_consts r) fs) c ->
+  exists cs1 cs3 h' c',
+    r_chunks r = cs1 ++ (l, CBytes (le_bytes 2 h')) :: cs3 /\
+    incl (map fst cs1) (map fst pre) /\ incl (map fst cs3) (map fst post) /\
+    0 <= h' < 65536 /\ decode16 h' = Some c' /\ expand_c c' = expand_c c.
+Proof. exact eligible_is_compressed_parsed_at. Qed.
+Print Assumptions C20_program_parsed_eligible_is_compressed_at.
+Theorem C20_program_pseudo_eligible_expansion_is_compressed :
+  forall its consts0 labels0 r l pname args pimm cls name fs c,
+  assemble_items its consts0 labels0 true = Done r ->
+  In (l, IPseudo pname args pimm) its -> line_once l its ->
+  pseudo_one (r_consts r) l pname args pimm = Some (IInstr cls name fs false) ->
+  settled_operands (r_consts r) l (resolved_fields (r_consts r) fs) ->
+  eligible_as (r_consts r) l name (resolved_fields (r_consts r) fs) c ->
+  exists h' c',
+    chunks_of_line l (r_chunks r) = [(l, CBytes (le_bytes 2 h'))] /\
+    0 <= h' < 65536 /\ decode16 h' = Some c' /\ expand_c c' = expand_c c.
+Proof. exact eligible_expansion_is_compressed'. Qed.
+Print Assumptions C20_program_pseudo_eligible_expansion_is_compressed.
+(* the items of the example below are what the parser makes of their source lines *)
+Example C20_example_lines_are_parsed :
+  parse_item (exL 4) ["addi"; "x8"; "x8"; "N"]%string = FOk (exI "addi" "x8" "x8" (AName "N")) /\
+  parse_item (exL 5) ["addi"; "R"; "R"; "-3"]%string = FOk (exI "addi" "R" "R" (AUn UNeg (ANum 3))) /\
+  parse_item (exL 12) ["slli"; "x8"; "x8"; "3"]%string = FOk ex20_slli /\
+  parse_item (exL 3) ["li"; "a0"; "N"]%string = FOk (IPseudo "li" ["a0"; "N"]%string (POk (EArith (AName "N")))).
+Proof. repeat split; vm_compute; reflexivity. Qed.
+
+(* non-vacuity (computed):
+     N = 5 / R = 9 / start: / addi x8, x8, N / addi R, R, -3 / addi x8, x9, 100 / addi x10, x10, data / align 8 / data: /
+     dw 0x12345678 / string hi / slli x8, x8, 3
+   assembles with -c; lines 4, 5 and 12 come out in 2 bytes (constant operand; register alias; shift), line 6 (no RVC form) and line 7
+   (label dependent: the value 16 of `data` would fit c.addi, but the operand is not settled) in 4; the hypotheses of the theorems hold
+   for lines 4 / 12 (no-alias form) and 5 (general form).  The real assembler gives the same bytes for this source. *)
+Example C20_program_example :
+  (exists r, assemble_items ex20 [] [] true = Done r /\ r_consts r = ex20_consts /\ r_labels r = [("start", 0); ("data", 16)]%string /\
+     map (fun lc => (lnum (fst lc), Pipeline.chunk_len (snd lc))) (r_chunks r) =
+       [(4, 2); (5, 2); (6, 4); (7, 4); (8, 4); (10, 4); (11, 2); (12, 2)]) /\
+  (forall fs, (exL 4, IInstr "ITypeInstruction" "addi" fs false) = (exL 4, exI "addi" "x8" "x8" (AName "N")) ->
+     In (exL 4, IInstr "ITypeInstruction" "addi" fs false) ex20 /\ line_once (exL 4) ex20 /\
+     class_of_name "addi" = Some "ITypeInstruction"%string /\ std_fields "ITypeInstruction" fs /\ regs_resolved ex20_consts fs /\
+     settled_operands ex20_consts (exL 4) fs /\ eligible_as ex20_consts (exL 4) "addi" fs (CAddi 8 5)) /\
+  (forall fs, (exL 5, IInstr "ITypeInstruction" "addi" fs false) = (exL 5, exI "addi" "R" "R" (AUn UNeg (ANum 3))) ->
+     In (exL 5, IInstr "ITypeInstruction" "addi" fs false) ex20 /\ line_once (exL 5) ex20 /\
+     class_of_name "addi" = Some "ITypeInstruction"%string /\ std_fields "ITypeInstruction" fs /\
+     settled_operands ex20_consts (exL 5) (resolved_fields ex20_consts fs) /\
+     eligible_as ex20_consts (exL 5) "addi" (resolved_fields ex20_consts fs) (CAddi 9 (-3))) /\
+  (forall fs, (exL 12, IInstr "RTypeInstruction" "slli" fs false) = (exL 12, ex20_slli) ->
+     In (exL 12, IInstr "RTypeInstruction" "slli" fs false) ex20 /\ line_once (exL 12) ex20 /\
+     class_of_name "slli" = Some "RTypeInstruction"%string /\ std_fields "RTypeInstruction" fs /\ regs_resolved ex20_consts fs /\
+     settled_operands ex20_consts (exL 12) fs /\ eligible_as ex20_consts (exL 12) "slli" fs (CSlli 8 3)) /\
+  (is_settled (exL 7) 0 ex20_consts (EArith (AName "data")) = Done false /\
+   eval_here (exL 7) 12 ex20_consts [("start", 0); ("data", 16)]%string (EArith (AName "data")) = Done 16).
+Proof. exact (conj ex20_runs (conj ex20_line4 (conj ex20_line5 (conj ex20_line12 ex20_line7_not_settled)))). Qed.
+
+(* non-vacuity of the pseudo-instruction form (computed):
+     N = 5 / f: / li a0, N / mv a1, a2 / nop / li a0, 100 / li a0, 0x12345 / jr t0 / ret
+   li a0, N -> c.li; mv -> c.mv; nop -> c.nop; li a0, 100 stays 4 bytes; li a0, 0x12345 -> c.lui + addi (2 + 4); jr / ret -> c.jr *)
+Example C20_program_pseudo_example :
+  (exists r, assemble_items ex20p [] [] true = Done r /\ r_consts r = [("N", 5)]%string /\
+     map (fun lc => (lnum (fst lc), Pipeline.chunk_len (snd lc))) (r_chunks r) =
+       [(3, 2); (4, 2); (5, 2); (6, 4); (7, 2); (7, 4); (8, 2); (9, 2)]) /\
+  (exists cls name fs,
+     In (exL 3, IPseudo "li" ["a0"; "N"]%string (POk (EArith (AName "N")))) ex20p /\ line_once (exL 3) ex20p /\
+     pseudo_one [("N", 5)]%string (exL 3) "li" ["a0"; "N"]%string (POk (EArith (AName "N"))) = Some (IInstr cls name fs false) /\
+     class_of_name name = Some cls /\ std_fields cls fs /\
+     settled_operands [("N", 5)]%string (exL 3) (resolved_fields [("N", 5)]%string fs) /\
+     eligible_as [("N", 5)]%string (exL 3) name (resolved_fields [("N", 5)]%string fs) (CLi 10 5)) /\
+  (exists cls name fs,
+     In (exL 4, IPseudo "mv" ["a1"; "a2"]%string (PErr (PRaw OtherExn))) ex20p /\ line_once (exL 4) ex20p /\
+     pseudo_one [("N", 5)]%string (exL 4) "mv" ["a1"; "a2"]%string (PErr (PRaw OtherExn)) = Some (IInstr cls name fs false) /\
+     class_of_name name = Some cls /\ std_fields cls fs /\
+     settled_operands [("N", 5)]%string (exL 4) (resolved_fields [("N", 5)]%string fs) /\
+     eligible_as [("N", 5)]%string (exL 4) name (resolved_fields [("N", 5)]%string fs) (CMv 11 12)) /\
+  (exists cls name fs,
+     In (exL 5, IPseudo "nop" [] (PErr (PRaw OtherExn))) ex20p /\ line_once (exL 5) ex20p /\
+     pseudo_one [("N", 5)]%string (exL 5) "nop" [] (PErr (PRaw OtherExn)) = Some (IInstr cls name fs false) /\
+     class_of_name name = Some cls /\ std_fields cls fs /\
+     settled_operands [("N", 5)]%string (exL 5) (resolved_fields [("N", 5)]%string fs) /\
+     eligible_as [("N", 5)]%string (exL 5) name (resolved_fields [("N", 5)]%string fs) CNop) /\
+  (exists cls name fs,
+     In (exL 8, IPseudo "jr" ["t0"]%string (PErr (PRaw OtherExn))) ex20p /\ line_once (exL 8) ex20p /\
+     pseudo_one [("N", 5)]%string (exL 8) "jr" ["t0"]%string (PErr (PRaw OtherExn)) = Some (IInstr cls name fs false) /\
+     class_of_name name = Some cls /\ std_fields cls fs /\
+     settled_operands [("N", 5)]%string (exL 8) (resolved_fields [("N", 5)]%string fs) /\
+     eligible_as [("N", 5)]%string (exL 8) name (resolved_fields [("N", 5)]%string fs) (CJr 5)) /\
+  (exists cls name fs,
+     In (exL 9, IPseudo "ret" [] (PErr (PRaw OtherExn))) ex20p /\ line_once (exL 9) ex20p /\
+     pseudo_one [("N", 5)]%string (exL 9) "ret" [] (PErr (PRaw OtherExn)) = Some (IInstr cls name fs false) /\
+     class_of_name name = Some cls /\ std_fields cls fs /\
+     settled_operands [("N", 5)]%string (exL 9) (resolved_fields [("N", 5)]%string fs) /\
+     eligible_as [("N", 5)]%string (exL 9) name (resolved_fields [("N", 5)]%string fs) (CJr 1)).
+Proof. exact (conj ex20p_runs (conj ex20p_line3 (conj ex20p_line4 (conj ex20p_line5 (conj ex20p_line8 ex20p_line9))))). Qed.
